@@ -77,9 +77,10 @@ Init1 == /\ c \in {[b |-> b, cash |-> ca] : b \in BookIds, ca \in CashAlpha}
 UAlpha == {QI(1800), QI(2000), QOf(8001, 4), QI(2200)} \cup (IF Level > 1 THEN {QOf(7999, 4)} ELSE {})
 ExpAlpha == {-60, 60, 90, 120, 6000}
 Hours == 0 .. (NH - 1)
-RowsAlpha == {Hours, Hours \ {2}} \cup (IF Level > 1 THEN {Hours \ {1, 2}, Hours \ {1}} ELSE {})
+MissAlpha == {{}, {2}} \cup (IF Level > 1 THEN {{1, 2}, {1}} ELSE {})     \* hours without a book row
 MarkAlpha == {Mark7, P4(4)}
-Configs2 == {[exp |-> e, rows |-> rw, delist |-> dl, mark |-> m] : e \in ExpAlpha, rw \in RowsAlpha, dl \in BOOLEAN, m \in MarkAlpha}
+Configs2 == {[exp |-> e, miss |-> ms, delist |-> dl, mark |-> m] : e \in ExpAlpha, ms \in MissAlpha, dl \in BOOLEAN, m \in MarkAlpha}
+RowsOf(cf) == Hours \ cf.miss
 
 SeqOfSet(S) == LET RECURSIVE F(_)
                    F(T) == IF T = {} THEN <<>> ELSE LET x == CHOOSE y \in T : \A z \in T : y <= z IN <<x>> \o F(T \ {x})
@@ -88,17 +89,17 @@ Info2(cf) == [i \in I2 |-> [kind |-> i, K |-> QI(2000), exp |-> IF i = "C" THEN 
 
 BarTimes(cf) ==
   CASE Grid = 1 -> [j \in 1 .. NH |-> 60 * (j - 1)]
-    [] Grid = 3 -> SeqOfSet({60 * h : h \in cf.rows})
+    [] Grid = 3 -> SeqOfSet({60 * h : h \in RowsOf(cf)})
     [] Grid = 2 -> SeqOfSet(UNION {{60 * h, 60 * h + 1, 60 * h + 30, 60 * h + 59} : h \in Hours} \ {60 * (NH - 1) + 30, 60 * (NH - 1) + 59})
 
 ListedAt(cf, i, t) == ~(cf.delist /\ t >= Info2(cf)[i].exp)
 Row2(cf, i, h, u) ==
-  IF h \in cf.rows /\ ListedAt(cf, i, 60 * h)
+  IF h \in RowsOf(cf) /\ ListedAt(cf, i, 60 * h)
   THEN [listed |-> TRUE, asks |-> <<Lv(500, 20)>>, bids |-> <<Lv(490, 20)>>, mark |-> cf.mark, und |-> u]
   ELSE NoRow
 BarData(cf, t, u) ==      \* status loaded at bar time t when the hour's underlying is u
   LET h == t \div 60 IN
-  [last |-> FALSE, t |-> t, hour |-> (t % 60 = 0), open |-> (t % 60 = 0) /\ h \in cf.rows, px |-> u,
+  [last |-> FALSE, t |-> t, hour |-> (t % 60 = 0), open |-> (t % 60 = 0) /\ h \in RowsOf(cf), px |-> u,
    book |-> [i \in I2 |-> Row2(cf, i, h, u)]]
 
 Trades2 == {Tr("buy", "C", One, "mkt", Zero), Tr("buy", "C", QI(3), "mkt", Zero), Tr("buy", "P", QI(2), "mkt", Zero), Tr("sell", "C", One, "mkt", Zero)}
@@ -123,14 +124,14 @@ Init2 == /\ c \in Configs2
 Events(s) == IF Scen = 1 THEN Events1(s) ELSE Events2(s)
 
 Init == /\ IF Scen = 1 THEN Init1 ELSE Init2
-        /\ last = [ev |-> [op |-> "init"], out |-> "ok", fills |-> <<>>, fee |-> Zero, acts |-> <<>>]
+        /\ last = [ev |-> [op |-> "init"], out |-> "ok", cause |-> "", fills |-> <<>>, fee |-> Zero, acts |-> <<>>, eq |-> Equity(st)]
 
 Next == /\ st.n < MaxOps
         /\ (ContinueAfterReject \/ last.out = "ok")
         /\ \E ev \in Events(st) :
              LET r == Step(st, ev) IN
              /\ st' = r.st
-             /\ last' = [ev |-> ev, out |-> r.out, fills |-> r.fills, fee |-> r.fee, acts |-> r.acts]
+             /\ last' = [ev |-> ev, out |-> r.out, cause |-> r.cause, fills |-> r.fills, fee |-> r.fee, acts |-> r.acts, eq |-> Equity(r.st)]
         /\ c' = c
 
 Spec == Init /\ [][Next]_vars
